@@ -24,7 +24,8 @@ ASSUMPTIONS = [
     "quantifier bound: <= 4 concurrent consumers, limits 1..10000 KiB/s",
     "a take_tokens call that started under a positive limit may finish under the old limiter after a change "
     "(the property only forbids throttling of calls made while unlimited); across a change the bound allows one "
-    "128-byte grant per consumer that was in flight at the change",
+    "128-byte grant per consumer that was in flight at the change plus the (< 128 byte) remainder of the old bucket, "
+    "which copy_tokens duplicates",
     "the bounded-progress (stall) rule is judged only in runs whose timers fire 0.2-3 ms late (seeded), as on a "
     "real loop: with exactly periodic virtual timers the 10 ms polling of several waiters phase-locks and one of "
     "them can lose every race, an artefact of exact virtual time that a real clock cannot produce (measured: max "
@@ -148,7 +149,9 @@ def check_bound(res: dict, grants: list, changes: list, label: str, inflight_byt
         if len(segs) < 2:
             continue
         lo_seq = segs[0][0]
-        sub = [(g[1], g[2]) for g in grants if g[0] > lo_seq and (end_seq is None or g[0] < end_seq) and g[4] > 0]
+        # calls that started before the period are served by the limiter of the previous period (bounded by (1))
+        sub = [(g[1], g[2]) for g in grants if g[0] > lo_seq and (end_seq is None or g[0] < end_seq) and g[4] > 0
+               and (len(g) < 6 or g[5] >= lo_seq)]
         if not sub:
             continue
         bounds = [(segs[i][1], segs[i + 1][1] if i + 1 < len(segs) else (end_t if end_t is not None else float('inf')), segs[i][2])
@@ -255,7 +258,7 @@ def _run_limiter(params: dict) -> dict:
                 lim_obj = conns[k].upload_rate_limiter if direction == 'upload' else conns[k].download_rate_limiter
                 keep.append(lim_obj) if (not keep or keep[-1] is not lim_obj) else None
                 started_limit = cur['kbps']
-                t0, it0 = loop.time(), loop.iterations
+                t0, it0, seq0 = loop.time(), loop.iterations, seqc[0]
                 state['open_calls'][k] = (t0, started_limit)
                 _spin['task_counts'][asyncio.current_task()] = 0
                 try:
@@ -269,7 +272,7 @@ def _run_limiter(params: dict) -> dict:
                 t1, it1 = loop.time(), loop.iterations
                 state['open_calls'].pop(k, None)
                 seqc[0] += 1
-                grants.append((seqc[0], t1, nbytes, id(lim_obj), lim_obj.limit_bps, started_limit))
+                grants.append((seqc[0], t1, nbytes, id(lim_obj), lim_obj.limit_bps, seq0))
                 calls.append((t0, t1, it1 != it0, started_limit))
                 gap = GAPS[gap_name]
                 if gap_name == 'idle':
@@ -350,7 +353,7 @@ def _run_limiter(params: dict) -> dict:
         res['inconclusive'] = f'loop exception in harness: {exceptions[0]}'
 
     # -- oracles -----------------------------------------------------------
-    check_bound(res, [g[:5] for g in grants], limit_hist, direction, inflight_bytes=128 * n_cons)
+    check_bound(res, grants, limit_hist, direction, inflight_bytes=128 * (n_cons + 1))
     judged = 0
     for (t0, t1, suspended, started_limit) in calls:  # noqa
         if started_limit == 0:
